@@ -546,6 +546,7 @@ def check_machine(prop, tier, seed, rep):
         builds = [(f, r) for f in ALL_FEATS for r in (False, True)]
         nprog, chunk, budget_search = 12000, 3000, 1500
     samples = []
+    cover_sample = []
     hist = {}
     extra_cov = {}
     if prop in EXTRA_STEPS and consts_line:
@@ -565,6 +566,8 @@ def check_machine(prop, tier, seed, rep):
         sz = sizes(feat, release)
         stats["builds"].append("%s/%s" % (corr.feat_name(feat), "release" if release else "debug"))
         cp = corpus_programs(feat, consts_line, sz)
+        if bi == 0:
+            cover_sample.extend(cp)
         run_batch(prop, cp, feat, release, rep, stats, budget_search)
         rng = random.Random((seed * 1000003 + bi * 7919 + int(hashlib.sha1(prop.encode()).hexdigest()[:6], 16)) & 0xFFFFFFFF)
         prof = profile_for(prop, feat)
@@ -579,6 +582,8 @@ def check_machine(prop, tier, seed, rep):
                 progs.append((name, lines))
             if len(samples) < 2:
                 samples.append({"program": progs[0][1]})
+            if len(cover_sample) < 600:
+                cover_sample.extend(progs[:150])
             for k, v in op_hist(progs).items():
                 hist[k] = hist.get(k, 0) + v
             run_batch(prop, progs, feat, release, rep, stats, budget_search)
@@ -586,6 +591,7 @@ def check_machine(prop, tier, seed, rep):
             if rep.violations and time.time() - rep.t0 > 600:
                 break
     finish_proof_violation(prop, rep)
+    branches = model_branches(cover_sample)
     cov = coverage_proof(a, {
         "programs": stats["programs"],
         "disagreements_checked": stats["disagreements_checked"],
@@ -599,6 +605,9 @@ def check_machine(prop, tier, seed, rep):
         "generated": stats["generated"],
         "discarded_by_model(aborted/double-panic/fuel)": stats["discarded_by_model"],
         "op_histogram": hist,
+        "model_branches_reached": len(branches),
+        "model_branches": branches,
+        "model_branches_note": "micro-steps of the Lean machine on a sample of %d of these programs (corpus + generated), by machine mode / frame on top of the stack / operation of a script frame (driver mode `cover`)" % len(cover_sample),
         "event_histogram": stats["events"],
         "panics_caught_at_api_boundary": stats["panics_caught"],
         "whitebox_only_disagreements": stats["whitebox_only"],
@@ -611,6 +620,23 @@ def check_machine(prop, tier, seed, rep):
     if extra_cov.get("extra_evaluations"):
         cov["evaluations"] += extra_cov["extra_evaluations"]
     return cov
+
+
+def model_branches(progs):
+    """Which branches of the model the programs reach: tally of micro-steps by (mode, top frame kind, script operation)."""
+    if not progs or not os.path.exists(corr.DRIVER):
+        return {}
+    text = "\n".join("\n".join(lines) for _, lines in progs) + "\n"
+    try:
+        p = subprocess.run([corr.DRIVER, "cover"], input=text, capture_output=True, text=True, timeout=600)
+    except Exception:
+        return {}
+    out = {}
+    for l in p.stdout.splitlines():
+        t = l.split()
+        if len(t) == 3 and t[0] == "cov":
+            out[t[1]] = int(t[2])
+    return out
 
 
 # ------------------------------------------------------------------------------------ extra probes
